@@ -20,10 +20,10 @@ checks={
    text="All setter histories of depth 3 (thorough 4) over a ~130-operation alphabet (value menus hitting every early return of the override paths) from 16 start URLs, plus every single setter call with every value of Sigma^<=k, executed on the real *Url with the model's setter algorithms in lock-step; Href and nine getters compared after every call.",
    note=MODEL_NOTE+"Not covered: histories longer than the depth bound whose effect is not an already visited state; values outside menus and Sigma^<=k."),
  "C07": dict(level="model_checking", design="§5 C07", technique=T_ENUM,
-   text="All host strings of Sigma4^<=6 (thorough 7) over the IPv4-relevant alphabet and all dot-joined products of a 31-item boundary menu, in http and (shorter ones) every special scheme and as opaque host, compared with the model's ends-in-a-number checker, IPv4 number parser (big integers), IPv4 parser and serializer through the full URL parse.",
+   text="All host strings of Sigma4^<=6 (thorough 7) over the IPv4-relevant alphabet all dot-joined products of a 46-item boundary menu (every power-of-256 limit and machine-integer wrap point in decimal/hex/octal), and bounds v-1, v, v+1 derived from every integer literal of the current source, in http and (shorter ones) every special scheme and as opaque host, compared with the model's ends-in-a-number checker, IPv4 number parser (big integers), IPv4 parser and serializer through the full URL parse.",
    note=MODEL_NOTE+"Not covered: hosts longer than the bound outside the parts product."),
  "C08": dict(level="model_checking", design="§5 C08", technique=T_ENUM,
-   text="All bracket contents of Sigma6^<=6 (thorough 7), bracket arrangements, structured addresses (pieces x '::' positions x IPv4 tails) against the model's IPv6 parser, and all 6^8 addresses over piece values covering every zero pattern and digit-count class against the model serializer, including serialize-parse identity.",
+   text="All bracket contents of Sigma6^<=6 (thorough 7), bracket arrangements, structured addresses (pieces x '::' positions x 22 IPv4 tails incl. wrap points), source-derived bounds as pieces and IPv4-in-IPv6 parts, against the model's IPv6 parser, and all 6^8 addresses over piece values covering every zero pattern and digit-count class against the model serializer, including serialize-parse identity.",
    note=MODEL_NOTE+"Not covered: piece values outside the six representatives (the serializer only distinguishes zero / hex digit count)."),
  "C09": dict(level="exploration", design="§5 C09", technique="bounded exhaustive enumeration of hosts x all spellings (metamorphic: one outcome per variation class)",
    text="For every host of the declared spaces (all ASCII pairs, Sigma^<=4 over a 21-symbol reduced alphabet with IDNA-relevant characters, ACE probes, localhost under file:) every spelling (case x literal/escaped per code point) is parsed and all must agree; result ASCII/lower-case/free of forbidden domain code points; plain-ASCII hosts equal the standard's host parser.",
@@ -38,7 +38,7 @@ checks={
    text="BFS (depth 4, thorough 5) over mixed histories: list mutators through two handles, SetSearch, other setters, clone and resolve, on 7 start URLs (with/without query, opaque or not); after each step the URL's Query/Search/Href and every handle ever obtained must describe the same list.",
    note="Trusted: the standard's urlencoded parser (verif/model). Weaker reading where the statement is silent: an emptied list may leave a null or an empty query."),
  "C13": dict(level="model_checking", design="§5 C13", technique="explicit-state exploration of operation histories on pairs of real objects with frame and differential (twin) oracles",
-   text="For every pairing (resolve of 11 reference shapes, Clone) of 19 start URLs, handle obtained never/before/after, every history of depth 2 (thorough 3) over ~45 operations applied to either side: untouched side's observables and parameter list unchanged; operated side equals the same history on an independent fresh parse.",
+   text="For every pairing (resolve of 11 reference shapes, Clone) of 19 start URLs, handle obtained never/before/after, pairs built with the default parser and with one that records validation errors; every history of depth 2 (thorough 3) over ~45 operations applied to either side: untouched side's observables, parameter list and recorded validation errors unchanged; operated side equals the same history on an independent fresh parse; afterwards two probe sequences on the OTHER side must not show through (independence once both sides have been written).",
    note="Observables only, as the statement says. No model involved (differential oracle)."),
  "C19": dict(level="model_checking", design="§5 C19", technique=T_STATE,
    text="IsIPv4/IsIPv6/DecodedPort/Scheme/Query/Fragment/OpaquePath/IsSpecialScheme are checked against the primary getters and the Href shape in every state of the same exploration as C03/C04, plus the confluence oracle (same Href reached by parsing shows the same accessors).",
@@ -47,10 +47,10 @@ checks={
 
 checks.update({
  "C02": dict(level="exploration", design="§5 C02", technique="bounded exhaustive exploration of inputs x option subsets x operation histories on an AST-instrumented build with a deterministic statement budget (non-termination detector)",
-   text="Every subset of <=2 (thorough 3) of the 32 public options plus the four profiles x a byte-level input core, all 2^14 flag vectors x a trigger core, Sigma_B^<=3 under every single option, every setter with every value of Sigma_B^<=2, and all histories of depth 2 over ~170 operations (incl. Iterate, SetSearchParams, NewUrl) under every single option/profile: no panic, no budget overrun, URL-with-working-getters xor error.",
+   text="Every subset of <=2 (thorough 3) of the 32 public options plus the four profiles x a byte-level input core, all 2^14 flag vectors x a trigger core, Sigma_B^<=3 under every single option, every setter with every value of Sigma_B^<=2, all histories of depth 2 over ~170 operations (incl. Iterate, SetSearchParams, NewUrl) under every single option/profile, and 30 repetition families x 10 prefixes at 4000 repetitions (as input, against a long base, as value of every setter): no panic, no budget overrun (quadratic-tolerant: it detects non-termination, not cost), URL-with-working-getters xor error.",
    note="Trusted: the generated statement counter. BasicParser is driven only in the argument combinations the library itself uses; nil pointers as arguments are outside 'argument strings'. Not covered: inputs longer than the bounds outside the menus; option subsets of size >=4 that are not flag vectors."),
  "C06": dict(level="exploration", design="§5 C06", technique="bounded exhaustive enumeration of (base, reference) pairs with model-free relational oracles between the three resolution entry points",
-   text="Bases = 40-string menu + slot product (<=2 deviating slots); references = '', all '#f' / '?q' over Sigma^<=2, all scheme-less references over (Sigma minus ':')^<=k, and the serialization of every parsed base (B x B); the three entry points must agree and the five laws of the statement must hold for every pair.",
+   text="Bases = 40-string menu + slot product (<=2 deviating slots); references = '', all '#f' / '?q' over Sigma^<=2, all scheme-less references over (Sigma minus ':')^<=k, and the serialization of every parsed base (B x B); the three entry points must agree - also for a base value that has been used read-only before (parameter list inspected, earlier resolutions: repeatability) - and the five laws of the statement must hold for every pair; references spelling out the base's own scheme are included.",
    note="Implementation against itself; no model. Gives a model-independent cross-check of the with-base half of C01."),
  "C14": dict(level="model_checking", design="§5 C14", technique="stateless model checking of the real code: all thread interleavings up to a preemption bound under a controlled scheduler with statement-level scheduling points, Go race detector as per-schedule oracle",
    text="For every scenario (pairs of ~80 calls on shared package functions, Parsers, predefined profiles and shared base URLs; 3-thread and 2-calls-per-thread scenarios) all schedules with <=1 preemption (thorough: every pair at <=1, the quick-tier scenarios also at <=2) are executed on freshly built shared objects, plus one cold-process execution per scenario; oracles: race detector (hand-off creates no happens-before edge), result == solo result, package-level variables and shared URL observables unchanged, no panic.",
@@ -62,7 +62,7 @@ checks.update({
    text="No-option parsers == default on the C01 spaces; all 72 remove/sort/default-scheme combinations against the documented composition (setters + stable sort + scheme retry decided by the model's missing-scheme verdict); neutrality of the six conservative-extension options alone and in pairs on all inputs without the trigger; replaced encode sets and special-scheme maps against the model parameterised the same way; collapse postcondition; skip-equals on all lists of <=3 pairs.",
    note=MODEL_NOTE+"Trigger predicates are over-approximations. Known finding KF-serializer-delims-sort is matched narrowly. Options without a specification are only covered by C02."),
  "C17": dict(level="exploration", design="§5 C17", technique="bounded exhaustive enumeration: canon(canon(x)) == canon(x) over input spaces x profiles; ordinary-web-URL grammar enumerated completely within a slot-deviation bound",
-   text="WhatWg/WhatWgSortQuery/repeated-decoding on the C01 no-base spaces, all 144 composed profiles on a 14k-input space, GoogleSafeBrowsing and Semantic on every URL of the grammar with <=2 (thorough 3) deviating slots, text slots over all 1261 bodies x spellings.",
+   text="WhatWg/WhatWgSortQuery/repeated-decoding on the C01 no-base spaces, all 144 composed profiles on a 14k-input space, GoogleSafeBrowsing and Semantic on every URL of the grammar with <=2 (thorough 3) deviating slots, text slots over all 4033 bodies (<=2 unreserved characters x 9 spellings incl. escapes of the escape's own hex digits).",
    note="Known finding KF-serializer-delims-idem (sorting profiles, decoded pairs containing % & + =). Parameter names are read as non-empty."),
  "C18": dict(level="exploration", design="§5 C18", technique="metamorphic bounded exhaustive enumeration: every combination of <=v listed spelling variations on every URL of the grammar must canonicalize like the plain spelling",
    text="All plain URLs with <=2 deviating slots x every combination of <=2 (thorough 3) of the 8 variation kinds with every alternative each, under GoogleSafeBrowsing, Semantic and composed profiles with repeated decoding; the standard-normalised kinds under WhatWg, WhatWgSortQuery and composed profiles.",
